@@ -106,6 +106,13 @@ class Disp:
         self.enter_status = "none"  # none | entering | entered | failed | cancelled
         self.exit_status = "none"
 
+    # disposables may be value objects: all doubles compare equal and hash alike, yet each is its own disposable
+    def __eq__(self, other):
+        return isinstance(other, Disp)
+
+    def __hash__(self):
+        return 13
+
     async def __aenter__(self):
         self.n_enter += 1
         self.enter_status = "entering"
